@@ -43,17 +43,17 @@
    Where the documentation is silent the specification admits every behaviour (Effective is a SET of outcomes):
      (S1) only --set flags on a command whose settings carry default URIs: "defaults ... overwritten by config flags":
           whether --set alone counts as a config flag is not said -> defaults kept or dropped, both admitted.
-     (S2) env:<NAME>:-<default> when NAME is set to the empty string: README/doc say "unset"/"has not been set"; the
-          linked OpenTelemetry configuration specification says "unset or empty" -> empty document or default.
+     (S2) env:<NAME>:-<default> when NAME is set to the empty string: README / doc comment only speak of the variable
+          that "has not been set" / is "unset" (shell ":-" also covers the empty value) -> empty document or default.
      (S3) a location whose text before the first ":" is neither a well-formed scheme nor one letter ("_:x", "1a:x",
           ":x"): error, or read as a file path (service/README: "accepts either a file path or ... URI").
      (S4) "::" in the KEY part of --set (documented only for the value part and for yaml: URIs): nested, or an error.
      (S5) which failing source an error names, and every error text: not compared (only error vs. configuration).
      (S7) an EMPTY document (empty file, unset / empty variable, "yaml:") as a top-level source: contributes nothing,
           or is an error; both admitted (AsConf's handling of a nil value is not documented).
-     (S9) an http location answered with a status other than 200: error, or the body is used all the same.
      (S8) documents in which a "::" key overlaps a sibling key of the same map, empty key segments ("a..b", "=v"),
           white space around the key / "=", values that are not one YAML scalar / flow list / flow map: not generated.
+     (S9) an http location answered with a status other than 200: error, or the body is used all the same.
 
    Encoding.  Texts are sequences of ATOMS; the concrete string is the concatenation of the atoms' texts.  Single
    characters are atoms of their own wherever the syntax is defined character by character (scheme, drive letter,
